@@ -55,7 +55,9 @@ CHECKS = {
     'C04': dict(
         text='Bounded symbolic model checking: the real filter / filter_spatial run on catalogs of 2 (3) symbolic events with '
              'symbolic thresholds and symbolic datetime instants; the oracle is the exact conjunction of the statements; orders, '
-             'sequential application, idempotence and in_place=False are decided in the same exploration.',
+             'sequential application, idempotence, in_place=False and the history "filtered copy, then the same statements in place" '
+             'are decided in the same exploration; the threshold of a datetime statement is also decided with the float steps of the code '
+             'modelled (rounding envelope over every integer millisecond of 1900..2200, FP64 for a witness).',
         note='Trusted: z3; structured-array and datetime models; the literal-token contract float(repr(x)) == x.',
         ref='DESIGN.md 4/C04'),
     'C05': dict(
@@ -97,7 +99,8 @@ CHECKS = {
              '(skipped catalogs included), status (normal / undersampled / not-valid / no result) and quantiles are compared with '
              'the documentation formulas. Magnitude tests by assume-guarantee: scoring kernels (cumulative_square_diff, MLL_score) '
              'are decided against their definitions for all inputs in lemma jobs and replaced by recording opaque functions in the '
-             'test-level runs; cube-and-conquer over the event totals keeps the arithmetic linear.',
+             'test-level runs; cube-and-conquer over the event totals keeps the arithmetic linear. Three-cell jobs cover an under-sampled '
+             'cell next to a sampled cell without observed events; the N-test is run twice around a change of the catalogs.',
         note='Trusted: z3 (NRA+UF); catalog stubs (gridding is C03); numpy.random.choice as arbitrary admissible draws; functional '
              'consistency (Ackermann) lemmas for eliminated divisions. The number test is decided in C07.',
         ref='DESIGN.md 4/C10'),
